@@ -23,7 +23,8 @@ import (
 
 // The full proxy (forwarder.NewHTTPProxy with ProxyProtocolConfig) runs in a child process: its
 // accept loop dereferences conn.RemoteAddr() in a goroutine the harness cannot guard, so a header
-// that makes the address nil (F4) kills the whole process.
+// that makes the address nil (the repaired defect F4) kills the whole process.  The child reports
+// one result line per header as it goes, so a crash names the header that caused it.
 
 const childEnv = "FWDCHECK_C08_PROXY_CHILD"
 
@@ -47,12 +48,11 @@ func childInit() {
 		fmt.Fprintln(os.Stderr, "child: bad input:", err)
 		os.Exit(3)
 	}
-	res := childServe(hdrs)
-	json.NewEncoder(os.Stdout).Encode(res)
+	childServe(hdrs)
 	os.Exit(0)
 }
 
-func childServe(hdrs []string) []proxyResult {
+func childServe(hdrs []string) {
 	var mu sync.Mutex
 	seen := map[string]string{}
 	ol, err := net.Listen("tcp", "127.0.0.1:0")
@@ -81,12 +81,14 @@ func childServe(hdrs []string) []proxyResult {
 	go p.Run(ctx)
 	addrs, _ := p.Addr()
 	out := make([]proxyResult, len(hdrs))
+	enc := json.NewEncoder(os.Stdout)
 	for i, hx := range hdrs {
 		h, _ := core.UnHex(hx)
 		path := "/c" + strconv.Itoa(i)
 		c, err := net.Dial("tcp", addrs[0])
 		if err != nil {
 			out[i].Err = "dial: " + err.Error()
+			enc.Encode(out[i])
 			continue
 		}
 		c.SetDeadline(time.Now().Add(4 * time.Second))
@@ -106,11 +108,12 @@ func childServe(hdrs []string) []proxyResult {
 		mu.Lock()
 		out[i].XFF = seen[path]
 		mu.Unlock()
+		enc.Encode(out[i])
 	}
-	return out
 }
 
-// proxyBatch runs the headers through a fresh proxy in a child process.
+// proxyBatch runs the headers through a fresh proxy in a child process.  When the child dies, res
+// holds the results it had reported: hdrs[len(res)] is the header it died on.
 func proxyBatch(hdrs []string) (res []proxyResult, crashed bool, diag string) {
 	exe, err := os.Executable()
 	if err != nil {
@@ -129,10 +132,10 @@ func proxyBatch(hdrs []string) (res []proxyResult, crashed bool, diag string) {
 	go func() { done <- cmd.Wait() }()
 	select {
 	case err = <-done:
-	case <-time.After(time.Duration(20+6*len(hdrs)) * time.Second):
+	case <-time.After(time.Duration(30+5*len(hdrs)) * time.Second):
 		cmd.Process.Kill()
 		<-done
-		return nil, true, "child did not finish (hang)"
+		return parseResults(stdout.Bytes()), true, "child did not finish (hang)"
 	}
 	if err != nil {
 		if ee, ok := err.(*exec.ExitError); ok && ee.ExitCode() == 3 {
@@ -145,68 +148,100 @@ func proxyBatch(hdrs []string) (res []proxyResult, crashed bool, diag string) {
 		if len(d) > 700 {
 			d = d[:700]
 		}
-		return nil, true, fmt.Sprintf("child died (%v): %s", err, d)
+		return parseResults(stdout.Bytes()), true, fmt.Sprintf("child died (%v): %s", err, d)
 	}
-	if err := json.Unmarshal(stdout.Bytes(), &res); err != nil || len(res) != len(hdrs) {
+	res = parseResults(stdout.Bytes())
+	if len(res) != len(hdrs) {
 		core.Fatalf("C08: unreadable child output %q", stdout.String())
 	}
 	return res, false, ""
 }
 
-// expectedXFF: the host part of what RemoteAddr().String() gives for the model's remote address.
-func expectedXFF(ctx *core.Ctx, hx string) (string, bool) {
-	ans := ctx.Model.MustAsk("C08", "addrs", hx)
-	f := strings.Fields(ans)
-	if len(f) != 2 {
-		return "", false
+// parseResults reads the complete result lines the child wrote.
+func parseResults(b []byte) []proxyResult {
+	var res []proxyResult
+	for _, ln := range bytes.Split(b, []byte("\n")) {
+		var r proxyResult
+		if len(bytes.TrimSpace(ln)) == 0 || json.Unmarshal(ln, &r) != nil {
+			continue
+		}
+		res = append(res, r)
 	}
-	r := strings.TrimPrefix(f[0], "remote=")
-	switch {
-	case r == "sock":
-		return "127.0.0.1", true
-	case r == "nil":
-		return "", false
-	}
-	p := strings.Split(r, ":")
-	if len(p) != 3 {
-		return "", false
-	}
-	ip := core.MustUnHex(p[1])
-	return net.IP(ip).String(), true
+	return res
 }
 
+// reqAfterHeader stands for the HTTP request the child sends after the header (the real one names
+// the origin's port); the header's reading does not depend on the difference.
+const reqAfterHeader = "GET http://127.0.0.1:65535/c0 HTTP/1.1\r\nHost: 127.0.0.1:65535\r\nConnection: close\r\n\r\n"
+
+// hostOf: the host part of what RemoteAddr().String() gives for a model address.
+func hostOf(sel string) (string, bool) {
+	if sel == "sock" {
+		return "127.0.0.1", true
+	}
+	p := strings.Split(sel, ":")
+	if len(p) != 3 {
+		return "", false // "nil": no address to speak of
+	}
+	return net.IP(core.MustUnHex(p[1])).String(), true
+}
+
+// evalProxy compares what one connection through the full proxy did with the model: an accepted
+// header makes the origin see the advertised source (the socket's own for address-less headers) in
+// X-Forwarded-For, a refused one makes that connection fail.
 func evalProxy(ctx *core.Ctx, c proxyCase, r proxyResult) {
 	ctx.Case("proxy:"+c.Header, true)
 	ctx.Count("proxy/cases")
-	want, ok := expectedXFF(ctx, c.Header+core.HexS("GET http://x/ HTTP/1.1\r\n\r\n"))
+	hx := c.Header + core.HexS(reqAfterHeader)
+	mHead, mAddrs, _ := modelParts(ctx.Model.MustAsk("C08", "read", hx))
+	spec := askSpec(ctx, hx)
+	if spec.shape != "" {
+		ctx.Count("proxy/shape/" + spec.shape)
+	}
 	impl := fmt.Sprintf("status=%d xff=%q err=%s", r.Status, r.XFF, r.Err)
+	const rel = "full proxy: origin sees the advertised source in X-Forwarded-For; a refused header fails that connection"
+	if !strings.HasPrefix(mHead, "ok") {
+		ctx.Count("proxy/model-refuses")
+		if r.Status != 0 {
+			ctx.Disagree(rel, c, impl, "no response ("+mHead+")")
+			if spec.mustFail {
+				ctx.SpecFail(clauseText("malformed-fails"), "", c, impl, "")
+			}
+			return
+		}
+		ctx.TraceValidated()
+		return
+	}
+	ctx.Count("proxy/model-accepts")
+	want, ok := hostOf(strings.TrimPrefix(strings.Fields(mAddrs)[0], "ra="))
 	if !ok {
-		ctx.Count("proxy/no-address-in-model")
+		ctx.Disagree(rel, c, impl, "model: "+mAddrs)
 		return
 	}
 	if r.Status != 200 || r.XFF != want {
-		ctx.Disagree("full proxy: origin sees the advertised source in X-Forwarded-For", c, impl, fmt.Sprintf("status=200 xff=%q", want))
-		spec := askSpec(ctx, c.Header)
-		if spec.wf {
-			ctx.SpecFail("RemoteAddr/LocalAddr are the header's source/destination (origin sees X-Forwarded-For = advertised source)", spec.class, c, impl, "want "+want)
+		ctx.Disagree(rel, c, impl, fmt.Sprintf("status=200 xff=%q", want))
+		if spec.wf && !(spec.mayReject && r.Status == 0) {
+			ctx.SpecFail("RemoteAddr/LocalAddr are the header's source/destination (origin sees X-Forwarded-For = advertised source)", "", c, impl, "want "+want)
 		}
 		return
 	}
 	ctx.TraceValidated()
 }
 
+const goodHeader = "PROXY TCP4 1.2.3.4 5.6.7.8 1000 2000\r\n"
+
+// checkProxy sends one header (and then a well-formed one) to a fresh full proxy.
 func checkProxy(ctx *core.Ctx, c proxyCase) {
-	// a header for which the model reports a nil address would take the child down: that is the crash case
-	if _, ok := expectedXFF(ctx, c.Header+core.HexS("GET / HTTP/1.1\r\n\r\n")); !ok {
-		checkProxyCrash(ctx, c)
-		return
-	}
-	res, crashed, diag := proxyBatch([]string{c.Header})
+	res, crashed, diag := proxyBatch([]string{c.Header, core.HexS(goodHeader)})
 	if crashed {
-		ctx.Crash("no header, however unusual, crashes the process (full proxy)", askSpec(ctx, c.Header).class, c, diag)
+		ctx.Case("proxy:"+c.Header, true)
+		ctx.Crash("no header, however unusual, crashes the process (full proxy: accept loop)", "", c, diag)
 		return
 	}
 	evalProxy(ctx, c, res[0])
+	if res[1].Status != 200 || res[1].XFF != "1.2.3.4" {
+		ctx.SpecFail("a header makes only its own connection fail (the next connection is served)", "", c, fmt.Sprintf("next connection: %+v", res[1]), "")
+	}
 }
 
 // checkProxyCrash sends one header to the full proxy and then a well-formed request: the process
@@ -214,18 +249,62 @@ func checkProxy(ctx *core.Ctx, c proxyCase) {
 func checkProxyCrash(ctx *core.Ctx, c proxyCase) {
 	ctx.Case("proxy-crash:"+c.Header, true)
 	ctx.Count("proxy/liveness")
-	good := core.HexS("PROXY TCP4 1.2.3.4 5.6.7.8 1000 2000\r\n")
-	res, crashed, diag := proxyBatch([]string{c.Header, good})
-	spec := askSpec(ctx, c.Header)
+	res, crashed, diag := proxyBatch([]string{c.Header, core.HexS(goodHeader)})
 	if crashed {
-		ctx.Crash("no header, however unusual, crashes the process (full proxy: accept loop)", spec.class, c, diag)
+		ctx.Crash("no header, however unusual, crashes the process (full proxy: accept loop)", "", c, diag)
 		return
 	}
 	if res[1].Status != 200 || res[1].XFF != "1.2.3.4" {
-		ctx.SpecFail("a bad header makes only that connection fail (the next connection is served)", spec.class, c, fmt.Sprintf("next connection: %+v", res[1]), "")
+		ctx.SpecFail("a bad header makes only that connection fail (the next connection is served)", "", c, fmt.Sprintf("next connection: %+v", res[1]), "")
 		return
 	}
 	ctx.TraceValidated()
+}
+
+// runProxyBatches runs the cases through full proxies (chunks of at most 48 headers, each chunk in
+// its own child process and closed by a well-formed header; 8 children at a time).  A child that
+// dies names the header it died on: that header is filed as a crash with a replayable case.
+func runProxyBatches(ctx *core.Ctx, cases []proxyCase) {
+	const chunk = 48
+	var chunks [][]proxyCase
+	for i := 0; i < len(cases); i += chunk {
+		chunks = append(chunks, cases[i:min(i+chunk, len(cases))])
+	}
+	parallel(chunks, 8, func(cs []proxyCase) {
+		for len(cs) > 0 {
+			hdrs := make([]string, 0, len(cs)+1)
+			for _, c := range cs {
+				hdrs = append(hdrs, c.Header)
+			}
+			hdrs = append(hdrs, core.HexS(goodHeader))
+			res, crashed, diag := proxyBatch(hdrs)
+			for i := 0; i < len(res) && i < len(cs); i++ {
+				evalProxy(ctx, cs[i], res[i])
+			}
+			if !crashed {
+				ctx.Case("proxy-liveness:"+cs[0].Header, true)
+				ctx.Count("proxy/liveness")
+				last := res[len(res)-1]
+				if last.Status != 200 || last.XFF != "1.2.3.4" {
+					ctx.SpecFail("a header makes only its own connection fail (the next connection is served)", "", cs, fmt.Sprintf("connection after the batch: %+v", last), "")
+				} else {
+					ctx.TraceValidated()
+				}
+				return
+			}
+			k := len(res)
+			if k >= len(cs) {
+				// died on the closing well-formed header: nothing to attribute it to but the batch
+				ctx.Crash("no header, however unusual, crashes the process (full proxy)", "", cs, diag)
+				return
+			}
+			culprit := proxyCase{Kind: "proxy-crash", Header: cs[k].Header}
+			ctx.Case("proxy-crash:"+culprit.Header, true)
+			ctx.Count("proxy/child-died")
+			ctx.Crash("no header, however unusual, crashes the process (full proxy: accept loop)", "", culprit, diag)
+			cs = cs[k+1:] // the rest of the chunk goes to a fresh child
+		}
+	})
 }
 
 var proxyHeaders = []string{
@@ -233,12 +312,18 @@ var proxyHeaders = []string{
 	"PROXY TCP4 255.255.255.255 255.255.255.255 65535 65535\r\n",
 	"PROXY TCP6 2001:db8::68 2001:db8::1 40000 443\r\n",
 	"PROXY TCP6 ::ffff:9.8.7.6 ::1 1 2\r\n",
+	"PROXY TCP6 :: :: 1 2\r\n",   // 22 bytes (regression target F5): the request line must not lose its first bytes
+	"PROXY TCP6 ::1 :: 1 2\r\n",  // 23 bytes
+	"PROXY TCP6 1:: ::2 0 9\r\n", // 24 bytes
 	"PROXY UNKNOWN\r\n",
 	"PROXY UNKNOWN ff:: 1 2 whatever\r\n",
+	"PROXY TCP4 1.2.3.4 5.6.7.8 1000\r\n", // refused: that connection fails, the proxy lives
 	"\r\n\r\n\x00\r\nQUIT\n\x20\x00\x00\x00",
 	"\r\n\r\n\x00\r\nQUIT\n\x21\x11\x00\x0c\x01\x02\x03\x04\x05\x06\x07\x08\x00\x50\x01\xbb",
 	"\r\n\r\n\x00\r\nQUIT\n\x21\x21\x00\x27\x20\x01\x0d\xb8\x00\x00\x00\x00\x00\x00\x00\x00\x00\x00\x00\x01\x20\x01\x0d\xb8\x00\x00\x00\x00\x00\x00\x00\x00\x00\x00\x00\x02\xc0\x00\x01\xbb\x04\x00\x00",
 	"\r\n\r\n\x00\r\nQUIT\n\x20\x11\x00\x0c\x01\x02\x03\x04\x05\x06\x07\x08\x00\x50\x01\xbb",
+	"\r\n\r\n\x00\r\nQUIT\n\x21\x00\x00\x02\x01\x02", // the F4 witness: PROXY, AF_UNSPEC, two bytes
+	"\r\n\r\n\x00\r\nQUIT\n\x22\x11\x00\x00",         // command nibble 2
 }
 
 func runProxyCases(ctx *core.Ctx) {
@@ -267,31 +352,38 @@ func runProxyCases(ctx *core.Ctx) {
 		}
 		cases = append(cases, proxyCase{Kind: "proxy", Header: core.Hex(h)})
 	}
-	// keep only headers the model accepts with an address (anything else belongs to the liveness case)
-	var safe []proxyCase
-	var hdrs []string
-	for _, c := range cases {
-		if _, ok := expectedXFF(ctx, c.Header+core.HexS("GET / HTTP/1.1\r\n\r\n")); ok {
-			safe = append(safe, c)
-			hdrs = append(hdrs, c.Header)
+	// the short TCP6 lines (a sample in the quick tier)
+	for i, l := range shortTCP6Lines() {
+		if ctx.Quick() && i%6 != 0 {
+			continue
+		}
+		cases = append(cases, proxyCase{Kind: "proxy", Header: core.HexS(l)})
+	}
+	// v2: every command nibble x family byte (quick: the 26 regression families) through the accept
+	// loop of the full proxy, where a nil RemoteAddr used to kill the process
+	fams := regressFamilies
+	if !ctx.Quick() {
+		fams = make([]byte, 256)
+		for i := range fams {
+			fams[i] = byte(i)
 		}
 	}
-	ctx.Sample(safe[0])
-	res, crashed, diag := proxyBatch(hdrs)
-	if crashed {
-		// find the culprit alone
-		for _, c := range safe {
-			checkProxy(ctx, c)
-		}
-		if ctx.NumFindings() == 0 {
-			ctx.Crash("no header, however unusual, crashes the process (full proxy)", "", safe, diag)
-		}
-	} else {
-		for i, c := range safe {
-			evalProxy(ctx, c, res[i])
+	for cmd := 0; cmd < 16; cmd++ {
+		for _, fam := range fams {
+			r := ctx.Rng.Sub()
+			n := core.Pick(r, []int{0, 2, 12, 36})
+			switch fam {
+			case 0x11, 0x12:
+				n = core.Pick(r, []int{12, 12, 20, 4})
+			case 0x21, 0x22:
+				n = core.Pick(r, []int{36, 36, 40, 12})
+			case 0x31, 0x32:
+				n = 216
+			}
+			cases = append(cases, proxyCase{Kind: "proxy", Header: core.Hex(v2Header(byte(0x20|cmd), fam, r.Bytes(n), n))})
 		}
 	}
-	// liveness: malformed header, then the F4 witness (command PROXY, family 0x00, two bytes)
-	checkProxyCrash(ctx, proxyCase{Kind: "proxy-crash", Header: core.HexS("PROXY TCP4 1.2.3.4 5.6.7.8 1000\r\n")})
-	checkProxyCrash(ctx, proxyCase{Kind: "proxy-crash", Header: core.HexS("\r\n\r\n\x00\r\nQUIT\n\x21\x00\x00\x02\x01\x02")})
+	ctx.Extra("full_proxy", fmt.Sprintf("%d headers through forwarder.NewHTTPProxy in child processes (v2 command nibble x %d family bytes, short TCP6 lines, fixed and generated well-formed headers)", len(cases), len(fams)))
+	ctx.Sample(cases[0])
+	runProxyBatches(ctx, cases)
 }
